@@ -477,6 +477,32 @@ def rule_roles(program, ctx):
         ctx.bad(finding_func(P, rid, g, "get_auth_roles no longer reads auth.roles by pubkey with the default-roles fallback", text="def get_auth_roles(...)"))
 
 
+def rule_roles_verbatim(program, ctx, prop=P, rid="C14.verbatim"):
+    ctx.rule(
+        rid,
+        "role assignments read back exactly as last set: the `role set` command hands set_auth_roles the --roles argument it was given, untouched (roles are an open "
+        "alphabet - `authentication.actions` may name any letter, the docs use `t` for throttling - so a 'normalisation' that keeps only the letters of the Role enum silently "
+        "drops configured roles while reporting success)",
+        floor=1,
+    )
+    m = program.module("nostr_relay.cli")
+    n = 0
+    for fn in [f for f in ast.walk(m.tree) if isinstance(f, (ast.FunctionDef, ast.AsyncFunctionDef))]:
+        calls = [c for c in walk_no_nested(fn) if isinstance(c, ast.Call) and call_name(c).endswith("set_auth_roles")]
+        for c in calls:
+            n += 1
+            a = c.args[1] if len(c.args) > 1 else next((k.value for k in c.keywords if k.arg == "roles"), None)
+            params = {x.arg for x in fn.args.args + fn.args.kwonlyargs}
+            if isinstance(a, ast.Name) and a.id in params and not stores_of(fn, a.id):
+                ctx.ok(rid, c, f"{fn.name}: set_auth_roles(pubkey, {a.id}) with the argument as given")
+            else:
+                reb = stores_of(fn, a.id)[0] if isinstance(a, ast.Name) and stores_of(fn, a.id) else c
+                ctx.bad(finding_at(prop, rid, reb, f"cli {fn.name}: the roles handed to set_auth_roles are `{ast.unparse(reb)[:60]}`, not the --roles argument as given: role letters the "
+                                   "rewrite does not know are dropped without notice"))
+    if not n:
+        raise AnalysisError("cli: no set_auth_roles call found")
+
+
 def rule_authkey(program, ctx, prop=P, rid="C14.authkey"):
     ctx.rule(
         rid,
@@ -622,6 +648,11 @@ def run(program, ctx):
     rule_awaited(program, ctx, P, ANCHORS)
     rule_roles(program, ctx)
     rule_authkey(program, ctx)
+    rule_roles_verbatim(program, ctx)
+    from . import c09 as _c09
+
+    # on LMDB a role assignment is a replaceable service event: 'read back as last set' needs the supersede loop to keep the newest one
+    _c09.rule_delete_target(program, ctx, prop=P, rid="C14.target")
     rule_save(program, ctx)
     rule_query(program, ctx)
     rule_output(program, ctx)
